@@ -16,6 +16,7 @@ import PFV.Proofs.GenRun
 import PFV.Proofs.LexEnc
 import PFV.Proofs.GenFrame
 import PFV.Proofs.GenWF
+import PFV.Proofs.GenCount
 import PFV.Api
 import PFV.Reach
 import PFV.Front
@@ -917,6 +918,45 @@ theorem mods_hypothesis_checkable (mods : List (List UInt8 × List UInt8)) (h : 
     ModsOK mods := modsOK_of_check mods h
 
 end C04
+
+/-! ## C11 — exact counts for every configuration -/
+namespace C11
+
+/-- **C11, for every configuration** (protocol ≤ 5; any mutators, rate, unsafe mutations and type
+confusion; every lawful entropy source).  The drawn number of body opcodes `T` satisfies
+`min ≤ T`, and `T < max` or (`max ≤ min` and `T = min`); **each of the `T` iterations writes exactly
+one instruction** (`r.bodyLen = T`: the candidate list is never empty, the `len ≥ 256` guards of the
+SHORT_* emitters are dead because payloads stay ≤ 71 bytes through every mutator, and a GET always
+finds key 0); what follows the body is a collapse tail of at most `2T+1` opcodes and STOP. -/
+theorem exact_counts {σ} (E : Entropy σ) (X : G.Ext) (c : Cfg) (hE : Lawful E) (hv : c.version ≤ 5)
+    (s s' : σ) (r : G.Result) (h : G.generate E X c s = .ok (r, s')) :
+    c.minOps ≤ r.target ∧ (r.target < c.maxOps ∨ (c.maxOps ≤ c.minOps ∧ r.target = c.minOps)) ∧
+    r.bodyLen = r.target ∧
+    ∃ body tail : List Instr, r.instrs = body ++ tail ++ [stopInstr] ∧ body.length = r.target ∧
+      tail.length ≤ 2 * r.target + 1 := by
+  obtain ⟨h1, h2, h3⟩ := G.generate_counts E X c hE hv s s' r h
+  exact ⟨h1, h2, G.generate_bodyLen E X c hE hv s s' r h, h3⟩
+
+/-- **C11 on the bytes.**  What the reference lexer decodes from the returned bytes is at most two
+header instructions (PROTO, FRAME) followed by exactly the instructions above; hence the decoded
+output has at least `min+1` and at most `3·max(min,max)+4` opcodes. -/
+theorem decoded_counts {σ} (E : Entropy σ) (X : G.Ext) (c : Cfg) (hE : Lawful E)
+    (hF : FloatOK X.fmt) (hM : ModsOK X.mods) (hv : c.version ≤ 5)
+    (s s' : σ) (r : G.Result) (h : G.generate E X c s = .ok (r, s'))
+    (hlen : (r.instrs.flatMap Enc.encode).length < 18446744073709551616) :
+    ∃ is, Lex.lex r.bytes = .ok is ∧ c.minOps + 1 ≤ is.length ∧ is.length ≤ 3 * (max c.minOps c.maxOps) + 4 := by
+  obtain ⟨hdr, hh, hl, _⟩ := G.generate_lex E X c hE hF hM hv s s' r h hlen
+  obtain ⟨h1, h2, body, tail, hi, hb, ht⟩ := G.generate_counts E X c hE hv s s' r h
+  refine ⟨hdr ++ r.instrs, hl, ?_, ?_⟩
+  · rw [hi]; simp only [List.length_append, List.length_singleton]; omega
+  · rw [hi]; simp only [List.length_append, List.length_singleton]
+    have : r.target ≤ max c.minOps c.maxOps := by
+      rcases h2 with h2 | ⟨_, h2⟩
+      · exact Nat.le_trans (Nat.le_of_lt h2) (Nat.le_max_right _ _)
+      · rw [h2]; exact Nat.le_max_left _ _
+    omega
+
+end C11
 
 end PFV
 
